@@ -38,13 +38,23 @@ def gen_layout(rng, big):
     cells = [[[] for _ in range(w)] for _ in range(h)]
     pos = [(r, c) for r in range(h) for c in range(w)]
     a0, a1 = rng.sample(pos, 2)
-    if rng.random() < 0.4:          # adjacent agents on purpose
+    parked = rng.random() < 0.25
+    if parked or rng.random() < 0.4:          # adjacent agents on purpose
         r, c = a0
         nb = [(r + dr, c + dc) for dr, dc in ((0, 1), (1, 0), (0, -1), (-1, 0)) if 0 <= r + dr < h and 0 <= c + dc < w]
         if nb:
             a1 = rng.choice(nb)
     cells[a0[0]][a0[1]].append("A0")
     cells[a1[0]][a1[1]].append("A1")
+    if parked:
+        # an agent PARKED on the other agent's private goal (it does not own it, so the game goes on): goal cells get
+        # special treatment in the collision rules, the physical constraints hold there all the same
+        if rng.random() < 0.5:
+            who, cell = rng.choice([("G0", a1), ("G1", a0)])
+            cells[cell[0]][cell[1]].append(who)
+        else:                                  # both parked on each other's goal
+            cells[a1[0]][a1[1]].append("G0")
+            cells[a0[0]][a0[1]].append("G1")
     free = [p for p in pos if p not in (a0, a1)]
     for p in free:
         if rng.random() < 0.15:
